@@ -251,14 +251,17 @@ func (m *Monitor) OnObjectStart(n int, bt structform.BaseType) error {
 	return m.step(val.Event{K: val.EObjStart, N: n, BT: bt})
 }
 func (m *Monitor) OnObjectFinished() error { return m.step(val.Event{K: val.EObjEnd}) }
-func (m *Monitor) OnKey(s string) error    { return m.step(val.Event{K: val.EKey, S: string([]byte(s))}) }
+// By-value strings are retained as they are handed over (a Go string is
+// immutable: a consumer may keep it).  A producer that later overwrites the
+// memory behind it is caught when the recording is compared afterwards.
+func (m *Monitor) OnKey(s string) error { return m.step(val.Event{K: val.EKey, S: s}) }
 func (m *Monitor) OnArrayStart(n int, bt structform.BaseType) error {
 	return m.step(val.Event{K: val.EArrStart, N: n, BT: bt})
 }
 func (m *Monitor) OnArrayFinished() error  { return m.step(val.Event{K: val.EArrEnd}) }
 func (m *Monitor) OnNil() error            { return m.step(val.Event{K: val.ENil}) }
 func (m *Monitor) OnBool(b bool) error     { return m.step(val.Event{K: val.EBool, B: b}) }
-func (m *Monitor) OnString(s string) error { return m.step(val.Event{K: val.EString, S: string([]byte(s))}) }
+func (m *Monitor) OnString(s string) error { return m.step(val.Event{K: val.EString, S: s}) }
 func (m *Monitor) OnInt8(i int8) error     { return m.step(val.Event{K: val.EInt8, I: int64(i)}) }
 func (m *Monitor) OnInt16(i int16) error   { return m.step(val.Event{K: val.EInt16, I: int64(i)}) }
 func (m *Monitor) OnInt32(i int32) error   { return m.step(val.Event{K: val.EInt32, I: int64(i)}) }
